@@ -196,6 +196,27 @@ impl ZoneNode {
         })
     }
 
+    /// Returns whether the name of this node exists in the given version.
+    ///
+    /// Tree nodes are never removed once created, so a node can be left
+    /// behind when its records are deleted, by `remove_all()` or by a write
+    /// that was rolled back. A name exists if it owns data (RRsets, a zone
+    /// cut or a CNAME) or if a name below it does, i.e. it is an empty
+    /// non-terminal ([RFC 4592 section 2.2.2]).
+    ///
+    /// [RFC 4592 section 2.2.2]:
+    ///     https://datatracker.ietf.org/doc/html/rfc4592#section-2.2.2
+    pub fn exists(&self, version: Version) -> bool {
+        !self.rrsets.is_empty(version)
+            || self.with_special(version, |special| {
+                matches!(
+                    special,
+                    Some(Special::Cut(_)) | Some(Special::Cname(_))
+                )
+            })
+            || self.children.any_exists(version)
+    }
+
     pub fn with_special<R>(
         &self,
         version: Version,
@@ -241,7 +262,7 @@ impl NodeRrsets {
         if rrsets.is_empty() {
             return true;
         }
-        for value in self.rrsets.read().values() {
+        for value in rrsets.values() {
             if value.get(version).is_some() {
                 return false;
             }
@@ -383,6 +404,14 @@ impl NodeChildren {
         lock.insert(label.into(), Default::default());
         let lock = RwLockWriteGuard::downgrade(lock);
         op(lock.get(label).unwrap(), true)
+    }
+
+    /// Returns whether any child name exists in the given version.
+    fn any_exists(&self, version: Version) -> bool {
+        self.children
+            .read()
+            .values()
+            .any(|item| item.exists(version))
     }
 
     fn rollback(&self, version: Version) {
